@@ -189,129 +189,103 @@ def check(cx):
         A_f.update(nonnan)
         A_b.update(nonnan)
 
-        # ---------------- forward: LINEAR-SCAN
-        loops = [lp for lp in it.loops if lp.fn == inst]
-        probs = []
-        pred_f = None
-        if len(loops) != 1:
-            probs.append('expected one scan loop, found %d' % len(loops))
-        else:
-            lp = loops[0]
-            relevant = [(r, p, fv, iv) for r, p, fv, iv in lp.carried if r == a.args[0].root]
-            if len(relevant) != 1 or relevant[0][1] != (('f', iT),) or not isinstance(relevant[0][2], SliceRef):
-                probs.append('loop carries %s, expected only self.tail' % [p for _, p, _, _ in relevant])
-            else:
-                hv = relevant[0][2]
-                tau = hv.start
-                if hv.end != n1 or hv.root != front2.root:
-                    probs.append('carried tail is not a suffix of front')
-                iv = relevant[0][3]
-                if not (isinstance(iv, SliceRef) and iv.start == t):
-                    probs.append('scan does not start at the current cursor')
-                # back edge
-                if len(lp.back_states) != 1:
-                    probs.append('expected one continue edge, found %d' % len(lp.back_states))
-                else:
-                    bs = lp.back_states[0]
-                    bt = it.read(bs, a.args[0].root, (('f', iT),))
-                    if not (isinstance(bt, SliceRef) and bt.root == hv.root and NF()(bt.start).equals(NF()(tau) + NF()(('ic', 1))) and bt.end == n1):
-                        probs.append('continue edge does not shorten the tail by exactly one')
-                    lits = [(l[0], l[1]) for l in bs.guard]
-                    ne_lit = (('icmp', 'lt', tau, n1), True)
-                    others = [l for l in lits if l != ne_lit]
-                    if ne_lit not in lits or len(others) != 1:
-                        probs.append('continue edge guard is %s, expected non-empty ∧ ¬P(first)' % [term_str(c) for c, _ in lits])
-                    else:
-                        P, pol = others[0]
-                        Pn = P if pol else ('not', P)
-                        # continue iff NOT candidate, i.e. passed: end <= x
-                        pc = pred_class(('not', Pn), ('elem', FS, tau, 'end'), x)
-                        pred_f = pc
-                        rep.ob('pred', inst + ':forward', pc == 'gt', 'scan stops at the first tail segment with ' + term_str(('not', Pn))[:120],
-                               fn=inst, file=file, line=line,
-                               msg='forward scan stops on `%s`, expected end > x (strict): %s' % (term_str(('not', Pn))[:120], pc))
-                # exits
-                ex = []
-                for tgt, ss in lp.exit_states.items():
-                    for s in ss:
-                        ex.append(s)
-                kinds = []
-                for s in ex:
-                    lits = [(l[0], l[1]) for l in s.guard]
-                    tl = it.read(s, a.args[0].root, (('f', iT),))
-                    if not (isinstance(tl, SliceRef) and tl.start == tau):
-                        probs.append('an exit changes the tail')
-                    if (('icmp', 'ge', tau, n1), True) in lits or (('icmp', 'lt', tau, n1), False) in lits:
-                        kinds.append('empty')
-                    elif (('icmp', 'lt', tau, n1), True) in lits and len(lits) == 2:
-                        kinds.append('hit')
-                    else:
-                        kinds.append('other:%s' % [term_str(c) for c, _ in lits])
-                if sorted(kinds) != ['empty', 'hit']:
-                    probs.append('loop exits are %s, expected {tail empty, first segment accepted}' % kinds)
-                # selected piece on each exit
-                e_empty = simp(sel_poly, mdict(A_f, {('icmp', 'lt', tau, n1): False, ('icmp', 'ge', tau, n1): True}))
-                e_hit = simp(sel_poly, mdict(A_f, {('icmp', 'lt', tau, n1): True, ('icmp', 'ge', tau, n1): False}))
-                if e_empty != sym('last.poly'):
-                    probs.append('tail empty ⇒ selects %s, expected the last segment' % term_str(e_empty)[:120])
-                if e_hit != ('elem', FS, tau, 'poly'):
-                    probs.append('hit ⇒ selects %s, expected the first segment of the tail' % term_str(e_hit)[:120])
-                lp.recognised = 'LINEAR-SCAN'
-        rep.ob('step-fwd', inst, not probs, '; '.join(probs) or 'LINEAR-SCAN over tail with P = end > x; exits: empty ⇒ last, hit ⇒ first',
-               fn=inst, file=file, line=line, msg='forward path is not the reference scan: ' + '; '.join(probs))
+        # ---------------- both directions: the cursor moves by ONE search (however it is written: a loop closed by
+        # SEARCH-LOOP, position/find/find_map/rposition/partition_point, in evaluate() itself or in a helper it calls)
+        searches = [e for e in it.events if e['kind'] == 'search']
+        nf = NF()
 
-        # ---------------- backward
-        probs = []
-        tstart = subst_term(simp(tail2.start, A_b), repl) if isinstance(tail2, SliceRef) else None
-        searches = [e for e in it.events if e['kind'] == 'search' and e['fn'] == inst]
-        if tstart is None or len(searches) != 1:
-            probs.append('expected one backward search, found %d' % len(searches))
-        else:
-            ev = searches[0]
+        def one_path(A, forward):
+            probs = []
+            tstart = subst_term(simp(tail2.start, A), repl) if isinstance(tail2, SliceRef) else None
+            sp = subst_term(simp(sel_poly, A), repl)
+            if tstart is None:
+                return ['tail′ is not a slice view'], None
+            mentioned = set(subterms(tstart)) | set(subterms(sp))
+            used = [e for e in searches if subst_term(e['found'], repl) in mentioned or subst_term(e['idx'], repl) in mentioned]
+            if len(used) != 1:
+                return ['expected one %s search, found %d' % ('forward' if forward else 'backward', len(used))], None
+            ev = used[0]
             sterm = subst_term(it.abstract(st, ev['base']), repl)
-            # the search domain, whatever adaptor chain produced it: strip enumerate, look at the slice view
             dom = ev['base']
             while isinstance(dom, Stream) and dom.kind == 'enumerate':
                 dom = dom.parts[0]
             okd = False
             if isinstance(dom, Stream) and dom.kind == 'src' and isinstance(dom.parts[0], SliceRef):
                 sl = dom.parts[0]
-                e_ = subst_term(sl.end, repl)
-                # searching the whole front is equivalent on sorted input: by (B) no k ≥ t has end_k ≤ x < L
-                okd = sl.root == front2.root and sl.path == front2.path and sl.start == ('ic', 0) and (e_ == t or e_ == n1 or NF()(e_).equals(NF()(t)))
+                s_, e_ = subst_term(sl.start, repl), subst_term(sl.end, repl)
+                same = sl.root == front2.root and sl.path == front2.path
+                if forward:
+                    okd = same and (s_ == t or nf(s_).equals(nf(t))) and e_ == n1
+                else:
+                    # searching the whole front is equivalent on sorted input: by (B) no k ≥ t has end_k ≤ x < L
+                    okd = same and s_ == ('ic', 0) and (e_ == t or e_ == n1 or nf(e_).equals(nf(t)))
             if not okd:
-                probs.append('search domain is %s, expected front[..t]' % term_str(sterm)[:200])
-            if not ev['rev']:
+                probs.append('search domain is %s, expected %s' % (term_str(sterm)[:200], 'front[t..]' if forward else 'front[..t]'))
+            if forward and ev['rev']:
+                probs.append('search is from the back (last match instead of first)')
+            if not forward and not ev['rev']:
                 probs.append('search is not from the back (first match instead of last)')
             ivar = ev['ivar']
             P = ev['pred']
-            pc = pred_class(P, ('elem', FS, ivar, 'end'), x)
-            rep.ob('pred', inst + ':backward', pc == 'le', 'a skipped segment is recognised by ' + term_str(P)[:120], fn=inst, file=file, line=line,
-                   msg='backward search looks for `%s`, expected end <= x: %s' % (term_str(P)[:120], pc))
-            kidx = ('lastidx', sterm, ivar, P)
+            s0 = subst_term(dom.parts[0].start, repl) if okd else ('ic', 0)
+            pc = pred_class(P, ('elem', FS, it.iadd(s0, ivar) if s0 != ('ic', 0) else ivar, 'end'), x)
+            if forward:
+                rep.ob('pred', inst + ':forward', pc == 'gt', 'scan stops at the first tail segment with ' + term_str(P)[:120],
+                       fn=inst, file=file, line=line,
+                       msg='forward scan stops on `%s`, expected end > x (strict): %s' % (term_str(P)[:120], pc))
+            else:
+                rep.ob('pred', inst + ':backward', pc == 'le', 'a skipped segment is recognised by ' + term_str(P)[:120], fn=inst, file=file, line=line,
+                       msg='backward search looks for `%s`, expected end <= x: %s' % (term_str(P)[:120], pc))
+            kidx = ('firstidx' if forward else 'lastidx', sterm, ivar, P)
             found = ('found', sterm, ivar, P)
+            m = {subst_term(ev['idx'], repl): kidx, subst_term(ev['found'], repl): found}
+            tb = subst_term(tstart, m)
+            spm = subst_term(sp, m)
+            if forward:
+                # found ⇒ t + k* < n1 (k* indexes front[t..n1))
+                tf_want = nf(t) + nf(kidx)
+                t_found = simp(tb, {found: True})
+                t_none = simp(tb, {found: False})
+                if not (isinstance(t_found, tuple) and nf(t_found).equals(tf_want)):
+                    probs.append('found ⇒ tail′ starts at %s, expected t + (first index with end > x)' % term_str(t_found)[:160])
+                if not (isinstance(t_none, tuple) and nf(t_none).equals(nf(n1))):
+                    probs.append('not found ⇒ tail′ starts at %s, expected len(front) (empty tail)' % term_str(t_none)[:120])
+                if isinstance(t_found, tuple):
+                    sp1 = simp(spm, mdict({found: True}, {('icmp', 'lt', t_found, n1): True, ('icmp', 'ge', t_found, n1): False,
+                                                         ('icmp', 'ne', n1, ('ic', 0)): True, ('icmp', 'eq', n1, ('ic', 0)): False}))
+                    ok1 = isinstance(sp1, tuple) and sp1[0] == 'elem' and sp1[1] == FS and sp1[3] == 'poly' and nf(sp1[2]).equals(tf_want)
+                    if not ok1:
+                        probs.append('found ⇒ selects %s, expected the first segment of the new tail' % term_str(sp1)[:140])
+                if isinstance(t_none, tuple):
+                    sp0 = simp(spm, mdict({found: False}, {('icmp', 'lt', t_none, n1): False, ('icmp', 'ge', t_none, n1): True}))
+                    if sp0 != sym('last.poly'):
+                        probs.append('tail exhausted ⇒ selects %s, expected the last segment' % term_str(sp0)[:140])
+                return probs, ev
             # index + 1 ≤ n1 because index < t ≤ n1
             kp1 = it.iadd(kidx, ('ic', 1))
-            tb = subst_term(tstart, {subst_term(ev['idx'], repl): kidx, subst_term(ev['found'], repl): found})
             t_found = simp(tb, {found: True, ('icmp', 'le', kp1, n1): True, ('icmp', 'gt', kp1, n1): False})
             t_none = simp(tb, {found: False})
-            nf = NF()
             if not (isinstance(t_found, tuple) and nf(t_found).equals(nf(kidx) + nf(('ic', 1)))):
                 probs.append('found ⇒ tail′ starts at %s, expected (last index with end ≤ x) + 1' % term_str(t_found)[:160])
             if t_none != ('ic', 0):
                 probs.append('not found ⇒ tail′ starts at %s, expected 0 (whole front)' % term_str(t_none)[:120])
-            # selected piece
             for nm, tv, asm in (('found', t_found, {found: True, ('icmp', 'le', kp1, n1): True}), ('none', t_none, {found: False})):
                 if not isinstance(tv, tuple):
                     continue
-                sp = subst_term(simp(sel_poly, A_b), repl)
-                sp = subst_term(sp, {subst_term(ev['idx'], repl): kidx, subst_term(ev['found'], repl): found})
-                sp1 = simp(sp, mdict(asm, {('icmp', 'lt', tv, n1): True, ('icmp', 'ge', tv, n1): False, ('icmp', 'ne', n1, ('ic', 0)): True, ('icmp', 'eq', n1, ('ic', 0)): False}))
-                sp0 = simp(sp, mdict(asm, {('icmp', 'lt', tv, n1): False, ('icmp', 'ge', tv, n1): True, ('icmp', 'ne', n1, ('ic', 0)): False, ('icmp', 'eq', n1, ('ic', 0)): True}))
-                if sp1 != ('elem', FS, tv, 'poly'):
+                sp1 = simp(spm, mdict(asm, {('icmp', 'lt', tv, n1): True, ('icmp', 'ge', tv, n1): False, ('icmp', 'ne', n1, ('ic', 0)): True, ('icmp', 'eq', n1, ('ic', 0)): False}))
+                sp0 = simp(spm, mdict(asm, {('icmp', 'lt', tv, n1): False, ('icmp', 'ge', tv, n1): True, ('icmp', 'ne', n1, ('ic', 0)): False, ('icmp', 'eq', n1, ('ic', 0)): True}))
+                ok1 = isinstance(sp1, tuple) and sp1[0] == 'elem' and sp1[1] == FS and sp1[3] == 'poly' and nf(sp1[2]).equals(nf(tv))
+                if not ok1:
                     probs.append('%s, tail′ non-empty ⇒ selects %s, expected front[tail′ start]' % (nm, term_str(sp1)[:140]))
                 if sp0 != sym('last.poly'):
                     probs.append('%s, tail′ empty ⇒ selects %s, expected the last segment' % (nm, term_str(sp0)[:140]))
+            return probs, ev
+
+        probs, _ev = one_path(A_f, True)
+        rep.ob('step-fwd', inst, not probs, '; '.join(probs) or 'k* = first k ≥ t with end_k > x; tail′ = front[k*..] (or empty); select front[k*] else last',
+               fn=inst, file=file, line=line, msg='forward path is not the reference scan: ' + '; '.join(probs))
+        probs, _ev = one_path(A_b, False)
+        tstart = subst_term(simp(tail2.start, A_b), repl) if isinstance(tail2, SliceRef) else None
         rep.ob('step-bwd', inst, not probs, '; '.join(probs) or 'k* = last k<t with end_k ≤ x; tail′ = front[k*+1..] (or whole front); select first(tail′) else last',
                fn=inst, file=file, line=line, msg='backward path is not the reference step: ' + '; '.join(probs))
         rep.sample({'fn': inst, 'direction': term_str(C), 'tail_start_backward': term_str(tstart)[:300] if tstart else None})
